@@ -181,10 +181,17 @@ def linkops(ctx):
     # navigate() must read the same dictionary slot
     fn = repo.func('xtuml.meta:Link.navigate')
     p = param_names(fn)[0]
-    rets = [n for n in ast.walk(fn) if isinstance(n, ast.Return)]
-    good = any(pm.match('self[%s]' % p, x.value) is not None or pm.match('self.get(%s, __)' % p, x.value) is not None
-               for x in rets if x.value is not None)
-    r.check(good, 'Link.navigate returns the stored partner set of its instance', fn,
+    itn = absint.Interp(fn, [('%s in self' % p, lambda e, s, tr: s['has']), ('%s not in self' % p, lambda e, s, tr: not s['has'])])
+    o1, _ = itn.run({'has': True})
+    o2, _ = itn.run({'has': False})
+    good = o1.kind == 'return' and o1.value is not None and (pm.match('self[%s]' % p, o1.value) is not None or
+                                                             pm.match('self.get(%s, __)' % p, o1.value) is not None)
+    empty = o2.kind == 'return' and o2.value is not None and (
+        pm.match('self.get(%s, __)' % p, o2.value) is not None or
+        (isinstance(o2.value, (ast.List, ast.Tuple, ast.Set)) and not o2.value.elts) or
+        (isinstance(o2.value, ast.Call) and not o2.value.args and (call_attr(o2.value) or '') in ('set', 'list', 'tuple', 'OrderedSet', 'frozenset', 'QuerySet')))
+    good = good and empty
+    r.check(good, 'Link.navigate returns the stored partner set of its instance (an empty collection for an unconnected one)', fn,
             construct='xtuml.meta:Link.navigate', key='navigate',
             msg='Link.navigate no longer returns self[%s]' % p)
 
